@@ -192,6 +192,11 @@ func c11Special() *core.Scenario {
 					v.Outcome = "assembled"
 					v.Nontrivial = true
 					if core.ReportsError(rs[0], nil) {
+						if strings.Contains(pairs[pi][0], "NSEC EQU 5") {
+							// defining a name twice: an assembler may refuse that; what must not happen is a silent wrong value
+							v.Outcome = "redefinition_refused"
+							return v
+						}
 						v.Fails = []core.Fail{{Facet: "equ", Dev: "diagnosed_only_with_names", Detail: errSummary(rs[0])}}
 					} else if !bytes.Equal(rs[0].Out, rs[1].Out) {
 						v.Fails = []core.Fail{{Facet: "equ", Dev: "bytes_differ", Detail: fmt.Sprintf("with names %x, inlined %x", rs[0].Out, rs[1].Out)}}
